@@ -27,6 +27,7 @@ func init() {
 		"g16replay":   g16Replay,
 		"plonkreplay": plonkReplay,
 		"framing":     framingCmd,
+		"c10stress":   c10Stress,
 	}})
 }
 
